@@ -218,6 +218,8 @@ Definition builtin (name : str) (args : list val) (t : gty) (s : state) : res (v
     | [VInt z] => if (0 <=? z) && (z <? 128) then Ok (VStr [Z.to_N z], s) else Unsupported 34
     | _ => Stuck 34
     end
+  else if list_eqb name [97; 110; 121]%N then      (* any(x): conversion to the empty interface keeps the value *)
+    match args with [v] => Ok (v, s) | _ => Stuck 36 end
   else match assoc_str cast_names name, args with
        | Some ct, [VInt z] => Ok (VInt (wrap_ty ct z), s)
        | Some _, [VFloat _] => Unsupported 11
